@@ -173,6 +173,8 @@ class Check:
     # ------------------------------------------------------------------ counting
     def case(self, key, nontrivial=True):
         self.evaluations += 1
+        if self.evaluations % 25 == 0:
+            housekeeping()
         if nontrivial:
             self._nontrivial.add(key if isinstance(key, (str, int, tuple)) else json.dumps(key, sort_keys=True))
 
@@ -279,6 +281,22 @@ def _jd(o):
     if isinstance(o, Path):
         return str(o)
     return repr(o)
+
+
+def housekeeping(limit=26000):
+    """every library object (trial, propagator, sampler) owns its XLA executables; thousands of them exhaust the
+    process's memory maps (vm.max_map_count = 65530: "LLVM compilation error: Cannot allocate memory", then a crash).
+    Drop the compilation caches when the map count gets high."""
+    try:
+        with open("/proc/self/maps") as f:
+            nmaps = sum(1 for _ in f)
+    except OSError:
+        return
+    if nmaps > limit and "jax" in sys.modules:
+        import gc
+        import jax
+        jax.clear_caches()
+        gc.collect()
 
 
 def repo_setup():
